@@ -2115,6 +2115,160 @@ async fn run_bound(session: &Session, command: &str) -> Response {
         .await
 }
 
+/// A reader that holds everything but Propositions in full, and Propositions
+/// under `fields`.
+async fn reader_with_masked_propositions(
+    nexus: &CognitiveNexus,
+    name: &str,
+    fields: &[&str],
+    max_results: Option<u64>,
+) -> Session {
+    let gov = nexus.governance();
+    let reader = agent(gov, name).await;
+    let actions: Vec<String> = ["read", "project", "export"]
+        .into_iter()
+        .map(String::from)
+        .collect();
+    for (kinds, fields, max_results) in [
+        (vec!["concept", "assertion", "evidence"], vec![], None),
+        (vec!["proposition"], fields.to_vec(), max_results),
+    ] {
+        gov.create_grant(
+            GrantDraft {
+                space_id: DEFAULT_SPACE.into(),
+                grantee_principal: reader.clone(),
+                actions: actions.clone(),
+                scope: AuthorityScope {
+                    kinds: kinds.into_iter().map(String::from).collect(),
+                    ..Default::default()
+                },
+                constraints: AuthorityConstraints {
+                    fields: fields.into_iter().map(String::from).collect(),
+                    max_results,
+                    export: true,
+                    ..Default::default()
+                },
+                ..Default::default()
+            },
+            SYSTEM_PRINCIPAL,
+        )
+        .await
+        .unwrap();
+    }
+    nexus.session(AuthContext::principal(&reader))
+}
+
+#[tokio::test]
+async fn a_field_mask_hides_a_tuple_from_the_tuple_pattern_as_well() {
+    // §109 for the ends a tuple pattern is made of. `subject` and `object` are
+    // members of a Proposition's view, and a mask that leaves them out used to
+    // hide them from `FIND(?p)` only: the tuple pattern, the path walk, BELIEF
+    // by tuple and BELIEF SLOT all selected on — and bound — the stored row.
+    let queries = [
+        r#"FIND(?o.name) WHERE { (:alice, "prefers", ?o) }"#,
+        r#"FIND(?s.name) WHERE { (?s, "prefers", :tea) }"#,
+        r#"FIND(?s.name, ?o.name) WHERE { (?s, "prefers", ?o) }"#,
+        r#"FIND(?p.id, ?s, ?pred, ?o) WHERE { ?p PROPOSITION (?s, ?pred, ?o) }"#,
+        r#"FIND(?c.name) WHERE { ?c CONCEPT {type: "Person"} (:alice, "prefers", ?c) }"#,
+        r#"FIND(?c.name) WHERE { ?c CONCEPT {type: "Person"} NOT { (?s, "prefers", ?c) } }"#,
+        r#"FIND(?c.name, ?p.id) WHERE { ?c CONCEPT {type: "Person"} OPTIONAL { ?p PROPOSITION (?s, "prefers", ?c) } }"#,
+        r#"FIND(COUNT(?p)) WHERE { ?p PROPOSITION (?s, "prefers", :tea) }"#,
+        r#"FIND(?y.name) WHERE { (:alice, "prefers"{1,2}, ?y) }"#,
+        r#"FIND(?x.name, ?y.name) WHERE { (?x, "prefers"{1,2}, ?y) }"#,
+        r#"FIND(?b.status) WHERE { ?b BELIEF (:alice, "prefers", :tea) }"#,
+        r#"FIND(?slot) WHERE { ?slot BELIEF SLOT (:alice, "prefers") }"#,
+    ];
+    let mut answers = Vec::new();
+    for (name, thing) in [("masked_tuple_a", "tea"), ("masked_tuple_b", "coffee")] {
+        let nexus = space_where_alice_prefers(name, thing).await;
+        // The mask shows `_system` of a Proposition and nothing of its tuple.
+        let masked =
+            reader_with_masked_propositions(&nexus, "kip:principal:masked", &["_system"], None)
+                .await;
+        let mut space_answers = Vec::new();
+        for query in queries {
+            let response = run_bound(&masked, query).await;
+            assert_eq!(response.status, TopLevelStatus::Succeeded, "{query}");
+            space_answers.push((query, response.first_result().cloned()));
+        }
+        answers.push(space_answers);
+
+        // The Proposition is still there for it, without the tuple: an open
+        // slot over a member the mask removed reads null, a fixed one matches
+        // nothing.
+        let open = run_bound(&masked, queries[3]).await;
+        assert_eq!(
+            open.first_result().unwrap(),
+            &serde_json::json!([["P-1", null, null, null]])
+        );
+        let fixed = run_bound(
+            &masked,
+            r#"FIND(?p.id) WHERE { ?p PROPOSITION (:alice, ?pred, ?o) }"#,
+        )
+        .await;
+        assert!(fixed.first_result().unwrap().as_array().unwrap().is_empty());
+        // The predicate is the Schema symbol a Proposition is typed by, and
+        // stays selectable as `{type: "Person"}` does for a masked Concept.
+        let typed = run_bound(
+            &masked,
+            r#"FIND(?p.id) WHERE { ?p PROPOSITION (?s, "prefers", ?o) }"#,
+        )
+        .await;
+        assert_eq!(typed.first_result().unwrap(), &serde_json::json!(["P-1"]));
+
+        // A reader whose mask shows the tuple selects by it as before.
+        let seeing = reader_with_masked_propositions(
+            &nexus,
+            "kip:principal:seeing",
+            &["subject", "predicate_ref", "object"],
+            None,
+        )
+        .await;
+        let expected = if thing == "tea" { "Tea" } else { "Coffee" };
+        for query in [queries[0], queries[8]] {
+            let response = run_bound(&seeing, query).await;
+            assert_eq!(
+                response.first_result().unwrap(),
+                &serde_json::json!([expected]),
+                "{query}"
+            );
+        }
+    }
+    assert_eq!(
+        answers[0], answers[1],
+        "the reader may not see which of the two Alice prefers, yet its answers tell the Spaces apart"
+    );
+}
+
+#[tokio::test]
+async fn a_field_mask_hides_a_tuple_from_the_result_cap_as_well() {
+    // The result cap, as in `a_field_mask_hides_a_value_from_the_result_cap_as_well`:
+    // the index used to propose P-1 for `(?c, "prefers", :tea)` in the Space
+    // where that is its tuple, loading it folded `max_results: 1` into the
+    // read, and the twin Space answered every row.
+    let mut answers = Vec::new();
+    for (name, thing) in [
+        ("masked_tuple_cap_a", "tea"),
+        ("masked_tuple_cap_b", "coffee"),
+    ] {
+        let nexus = space_where_alice_prefers(name, thing).await;
+        let masked =
+            reader_with_masked_propositions(&nexus, "kip:principal:capped", &["_system"], Some(1))
+                .await;
+        let response = run_bound(
+            &masked,
+            r#"FIND(?c.name) WHERE { ?c CONCEPT {type: "Person"} NOT { (?c, "prefers", :tea) } }"#,
+        )
+        .await;
+        assert_eq!(response.status, TopLevelStatus::Succeeded);
+        answers.push((
+            response.first_result().cloned(),
+            response.next_cursor.clone(),
+        ));
+    }
+    assert_eq!(answers[0], answers[1]);
+}
+
 #[tokio::test]
 async fn a_belief_slot_does_not_list_a_proposition_the_caller_may_not_read() {
     // §104: outside the query universe means not a candidate value either.
